@@ -8,6 +8,7 @@ import GE.Model.SubExpr
 import GE.Model.TagGen
 import GE.Model.Group
 import GE.Model.PathAnalysis
+import GE.Model.LvaluePath
 import GE.Model.BindingMap
 import GE.Model.CssIO
 /-!
@@ -122,6 +123,14 @@ def step (fs : List String) : String :=
       let a := GE.PA.prepareAnalysis sc e
       esc (GE.Gen.spellStmts o.stmts) ++ "\t" ++ esc (GE.Gen.spellAll o.toks) ++ "\t" ++ toString (GE.Gen.aboveCond e)
         ++ "\t" ++ esc (GE.PA.stateExpr sc false a.pas a.pc) ++ "\t" ++ esc (GE.PA.stateExpr sc true a.pas a.pc)
+  | ["lvalue", sx, scopes] =>
+    withExpr sx fun e =>
+      let sc := parseScopes scopes
+      if !GE.Gen.scopesInRange sc.length e then "PANIC" else
+      let a := GE.PA.prepareAnalysis sc e
+      esc (GE.PA.lvaluePath sc .model a.pas).print ++ "\t" ++ esc (GE.PA.lvaluePath sc .script a.pas).print ++ "\t" ++
+        esc (GE.PA.lvaluePath sc .general a.pas).print ++ "\t" ++ toString (GE.PA.hasLvalue sc .model a.pas) ++ "\t" ++
+        toString (GE.PA.hasLvalue sc .script a.pas)
   | _ => "bad-op"
 
 partial def loop (h : IO.FS.Stream) (out : IO.FS.Stream) : IO Unit := do
